@@ -2,19 +2,8 @@
    the memory behaviour of bech32.Encode over Lib/Slice.v, and the static
    obligation produced by the translator (no exported codec function appends to,
    index-assigns into or copies into a slice parameter, transitively). *)
-From BU Require Import Lib.Bytes Lib.Slice Gen.AppendSites.
+From BU Require Import Lib.Bytes Lib.Slice Bech32.PurityModel Gen.AppendSites.
 From Coq Require Import ZifyBool ZifyN ZifyNat.
-
-(* current code:  combined := make([]byte, 0, len(data)+len(checksum));
-                  combined = append(combined, data...); combined = append(combined, checksum...) *)
-Definition encode_mem (h : heap) (data : slice) (checksum : list N) : heap * slice :=
-  let m := go_make h (s_len data + length checksum) in
-  let a := go_append (fst m) (snd m) (contents h data) in
-  go_append (fst a) (snd a) checksum.
-
-(* the code before the fix:  combined := append(data, checksum...) *)
-Definition encode_mem_old (h : heap) (data : slice) (checksum : list N) : heap * slice :=
-  go_append h data checksum.
 
 Lemma contents_length h s : slice_ok h s -> length (contents h s) = s_len s.
 Proof.
